@@ -25,6 +25,9 @@ func structOfPtr(t types.Type) *types.Struct {
 
 func fieldName(fa *ssa.FieldAddr) string {
 	if s := structOfPtr(fa.X.Type()); s != nil {
+		if c, ok := canonFieldOf[s.Field(fa.Field)]; ok {
+			return c // a renamed field keeps the name the rules know it by (anchors.go)
+		}
 		return s.Field(fa.Field).Name()
 	}
 	return fmt.Sprintf("f%d", fa.Field)
@@ -32,6 +35,9 @@ func fieldName(fa *ssa.FieldAddr) string {
 
 func fieldNameV(f *ssa.Field) string {
 	if s, ok := f.X.Type().Underlying().(*types.Struct); ok {
+		if c, ok := canonFieldOf[s.Field(f.Field)]; ok {
+			return c
+		}
 		return s.Field(f.Field).Name()
 	}
 	return fmt.Sprintf("f%d", f.Field)
@@ -63,7 +69,7 @@ func constStr(c *ssa.Const) string {
 func path(v ssa.Value) string {
 	switch v := v.(type) {
 	case *ssa.Parameter:
-		return v.Name()
+		return pname(v)
 	case *ssa.FreeVar:
 		return v.Name()
 	case *ssa.Global:
@@ -78,7 +84,7 @@ func path(v ssa.Value) string {
 		if v.Op == token.MUL {
 			if a, ok := v.X.(*ssa.Alloc); ok {
 				if p := spilledParam(a); p != nil {
-					return p.Name()
+					return pname(p)
 				}
 			}
 			return path(v.X)
@@ -107,13 +113,13 @@ func path(v ssa.Value) string {
 	case *ssa.Call:
 		if c := v.Call.StaticCallee(); c != nil {
 			if len(v.Call.Args) == 1 && c.Signature.Recv() != nil {
-				return path(v.Call.Args[0]) + "." + c.Name() + "()"
+				return path(v.Call.Args[0]) + "." + fnName(c) + "()"
 			}
 			var as []string
 			for _, a := range v.Call.Args {
 				as = append(as, path(a))
 			}
-			return c.Name() + "(" + strings.Join(as, ",") + ")"
+			return fnName(c) + "(" + strings.Join(as, ",") + ")"
 		}
 		if b, ok := v.Call.Value.(*ssa.Builtin); ok {
 			var as []string
